@@ -472,22 +472,20 @@ def makedirs (cy : Nat) (m : Bool) (p : Str) (recreate : Bool) : Prog (Res Unit)
           | .err e => .ret (.err e)
           | .ok () => .ret (.ok ()))
 
-/-- `FS.removetree`: `abspath(normpath(dir_path))` comes first (no `validatepath`), then a depth-first
-    walker whose first act is `scandir(dir_path)`; the loop (`remove` / `removedir` of every entry,
-    deepest first) empties the directory; then `removedir(dir_path)` unless it is the root -/
+/-- `FS.removetree`: `self.validatepath(dir_path)` comes first (since /repo 433aea4; before, `abspath(normpath(…))`
+    with no validation of its own), then a depth-first walker whose first act is `scandir(dir_path)`; the loop
+    (`remove` / `removedir` of every entry, deepest first) empties the directory; then `removedir(dir_path)` unless
+    it is the root -/
 def removetree (cy : Nat) (m : Bool) (p : Str) : Prog (Res Unit) :=
-  match normpath p with
+  match validate p with
   | .err e => .ret (.err e)
-  | .ok _ =>
-    match validate p with
+  | .ok cs =>
+    (scandirC cy m cs).bind fun r => match r with
     | .err e => .ret (.err e)
-    | .ok cs =>
-      (scandirC cy m cs).bind fun r => match r with
-      | .err e => .ret (.err e)
-      | .ok _ =>
-        .edit "removetree: DELE / RMD of every entry below, deepest first"
-          (fun t => some (setAt t cs (.dir [])))
-          fun _ => (if cs = [] then .ret (.ok ()) else removedirC cy m cs)
+    | .ok _ =>
+      .edit "removetree: DELE / RMD of every entry below, deepest first"
+        (fun t => some (setAt t cs (.dir [])))
+        fun _ => (if cs = [] then .ret (.ok ()) else removedirC cy m cs)
 
 /-- `FS.copy`: the destination check, the same-path check, `open(src, "rb")` (= `openbin`), `upload` -/
 def copy (cy : Nat) (m : Bool) (sp dp : Str) (overwrite : Bool) : Prog (Res Unit) :=
@@ -588,10 +586,10 @@ def copydir (cy : Nat) (m : Bool) (sp dp : Str) (create : Bool) : Prog (Res Unit
 abbrev M := State × Out
 
 /-- what a call on a CLOSED filesystem raises: `check()` comes first everywhere, except that `openbin`
-    validates its mode before and `removetree` normalises its path before -/
+    validates its mode before (the inherited `removetree` used to normalise its path before; since /repo 433aea4
+    it starts with `validatepath`, i.e. with `check()`) -/
 def closedErr : Op → Err
   | .openbin _ mode => if (parseBinMode mode).isNone then .ValueError else .FilesystemClosed
-  | .removetree p => (match normpath p with | .err e => e | .ok _ => .FilesystemClosed)
   | _ => .FilesystemClosed
 
 def withPath (p : Str) (f : List Name → Prog (Res α)) : Prog (Res α) :=
